@@ -94,6 +94,13 @@ NameOK(s) == LET t == TrimR(s) IN
                 \/ \E i \in DoubleAt(t) : /\ i + 2 <= Len(t) /\ Letter(t[i + 2])
                                           /\ NoDoubleFill(SubSeq(t, 1, i)) /\ NoDoubleFill(SubSeq(t, i + 2, Len(t)))
 
+\* document number field: letters / digits, special characters and blanks of the printed number replaced by single
+\* fillers (Doc 9303-3 4.6: e.g. AB-12345 is written AB<12345), then fillers up to the field length
+NumFieldOK(s) == LET t == TrimR(s) IN
+                 /\ t # << >> /\ (Digit(t[1]) \/ Letter(t[1]))
+                 /\ (\A i \in 1..Len(t) : Digit(t[i]) \/ Letter(t[i]) \/ t[i] = F)
+                 /\ NoDoubleFill(t)
+
 WellFormed(m) ==
   /\ Layout(m) # "none"
   /\ \A i \in 1..Len(m) : Alpha(m[i])
@@ -103,7 +110,7 @@ WellFormed(m) ==
      /\ NameOK(r.name)
      /\ IF r.extensible /\ r.numcd = F
         THEN Ext(r) /\ (\A i \in 1..Len(FullNum(r)) : Digit(FullNum(r)[i]) \/ Letter(FullNum(r)[i]))
-        ELSE AlnumThenFill(r.num)
+        ELSE NumFieldOK(r.num)
      /\ CdOK(FullNum(r), FullNumCd(r))
      /\ AllDigits(r.dob) /\ CdOK(r.dob, r.dobcd)
      /\ AllDigits(r.exp) /\ CdOK(r.exp, r.expcd)
